@@ -492,6 +492,10 @@ pub fn run(case: &J) -> J {
         res["events"] = events_to_json(&ev);
     }
     if want_counts {
+        // a collection while the request's thunk is still held, then drop everything that was
+        // handed out and collect: the object count must be back at the baseline after ONE
+        // collection, and a second one must find nothing more
+        program.gc();
         drop(thunk);
         drop(tla);
         cb.cache.clear();
